@@ -57,13 +57,16 @@ def sessions(ctx):
 
 
 def run(ctx):
-    return sessbase.run_property(ctx, 'C08',
+    rep = sessbase.run_property(ctx, 'C08',
         'P1: TLC checks OneItemPerLine / announce-once / closed-at-EOF over all streams of message and non-message lines with end '
         'of input at every point, for both settings of --supress; P2: replayed through the tool, where the input file object is '
         'the observation point (what was written is collected at each readline() call, so late output is a mismatch); P3: random '
         'streams with chatter, blank lines, and truncation at random byte positions (partial last line without newline). The '
         'sequence of items per input line is compared with Session!Step by TLC.',
         [('MC_Session_lines.cfg', 'C08 lines'), ('MC_Session_lines_sup.cfg', 'C08 lines, --supress')], sessions(ctx))
+    # ... and as a real process in file mode
+    sessbase.process_batch(ctx, rep, ['junk', 'msg', 'text'], ctx.pick(12, 120), 1000433, junk=0.35, show=None)
+    return rep
 
 
 def replay(ctx, data):
